@@ -12,12 +12,12 @@ from ..gen import callsets as G, spectra as GS, vcfgen
 from ..oracle import spectrum as O
 
 LEVEL = "exploration"
-NEEDS = ["cli", "cli:ovf"]
+NEEDS = ["cli", "cli:ovf", "harness", "harness:ovf"]
 STATS = ["d-fu-li", "d-tajima", "f2", "f3", "f4", "fst", "king", "pi", "pi-xy", "r0", "r1", "s", "sum", "theta"]
 RULE = ("(1) EVERY statistic (14) x EVERY shape with 1-4 axes and lengths 1-4 (340 shapes) plus all 1-2 axis shapes up to length 10, all 9-entry shapes and ten shapes with 2^14 and more entries and a very short axis (3x6001, 3x81x81, ...), zero/positive data; (2) view/fold/create option values at and "
         "beyond their bounds (axes, projection targets 0 / larger / wrong dimensionality / 2^63 / 2^64-1, precision 0/17/65535/65536/10^6, threads; file names and sample lists that are not valid UTF-8, with and without --debug / -vv); "
         "(2b) error exits and log lines with stderr pointing at /dev/full; (2c) successful work whose stdout is a pipe without reader (EPIPE), /dev/full (ENOSPC) or a read-only descriptor (EBADF), outputs from bytes to beyond the pipe buffer; (2d) `create` at every verbosity on inputs of 2^16 .. 2^17+1 records; (3) empty and 1-10 byte inputs and texts cut off after / interrupted by multi-byte UTF-8 characters, to all four subcommands by path and stdin; (4) absurd declared shapes in text and npy headers (0, 2^32, 2^63, "
-        "wrapping products, up to 22000 axes); (4b) unparsable npy v3 headers with a multi-byte character at every byte offset 20..230; (5) contradictory sample lists: hand-written ones plus EVERY list of 1-4 entries over {2 samples} x {label A, label B, no label} (1554 lists, -s and -S) and seeded 5-9 entry lists over 3 samples x 4 labels; (6) hostile bytes: every single-byte substitution {^01, ^80, 00, ff, +1} "
+        "wrapping products, up to 22000 axes); (4b) unparsable npy v3 headers with a multi-byte character at every byte offset 20..230; (4c) library level: genotype records with more or fewer genotypes than samples through the site reader (release and checked harness); (5) contradictory sample lists: hand-written ones plus EVERY list of 1-4 entries over {2 samples} x {label A, label B, no label} (1554 lists, -s and -S) and seeded 5-9 entry lists over 3 samples x 4 labels; (6) hostile bytes: every single-byte substitution {^01, ^80, 00, ff, +1} "
         "at every offset of small vcf / vcf.gz / bgzf bcf / raw bcf / npy / text seed files (deterministic), the same on the uncompressed payload "
         "re-BGZF'd, plus seeded multi-site mutations, splices, digit runs -> huge numbers, truncations. Each run on the release and the "
         "overflow-checked binary. Verdict per run: exit 0, or exit != 0 with a diagnostic; refuting: exit 101 / 'panicked at', death by signal, "
@@ -26,7 +26,7 @@ RULE = ("(1) EVERY statistic (14) x EVERY shape with 1-4 axes and lengths 1-4 (3
 ASSUMPTIONS = ["findings are keyed by (subcommand, normalised panic site); dependency sites are stable because Cargo.lock pins them",
                "--threads up to the tool's own limit (1024) is assumed to be spawnable on the machine running the check",
                "population counts between 20 and 25 are not generated: the 3^k-cell spectrum may or may not be allocatable on a given machine"]
-FLOORS = {"quick": {"evaluations": 30000, "distinct_nontrivial": 10000, "counts": {"stat_grid": 11000, "option_bounds": 300, "short_inputs": 300, "absurd_shapes": 150, "sample_lists": 60, "sample_lists_enumerated": 1900, "stdout_gone_runs": 500, "many_records_runs": 30, "npy_header_non_ascii": 1000, "hostile_bytes": 15000}},
+FLOORS = {"quick": {"evaluations": 30000, "distinct_nontrivial": 10000, "counts": {"stat_grid": 11000, "option_bounds": 300, "short_inputs": 300, "absurd_shapes": 150, "sample_lists": 60, "sample_lists_enumerated": 1900, "stdout_gone_runs": 500, "many_records_runs": 30, "npy_header_non_ascii": 1000, "ragged_record_requests": 200, "hostile_bytes": 15000}},
           "thorough": {"evaluations": 300000, "distinct_nontrivial": 150000, "counts": {"stat_grid": 11000, "hostile_bytes": 300000}}}
 NSHARD = 32
 KINDS = ["release", "ovf"]
@@ -306,6 +306,35 @@ def part_short(S, p):
 
 
 # ---------------------------------------------------------------- (4) absurd shapes
+def part_ragged_records(S, p):
+    """Library level: a genotype reader that hands the site reader MORE or FEWER genotypes than it announced samples (any implementation of
+    the reader trait may; so did BCF records before sfs checked their sample count). No panic, on the release and on the checked harness."""
+    rng = rng_for(S.seed, "c17", p["name"], "ragged")
+    reqs = []
+    for _ in range(4):
+        ns = rng.randint(1, 6)
+        samples = ["s%d" % j for j in range(ns)]
+        listed = rng.sample(samples, rng.randint(1, ns))
+        smap = [(s_, rng.choice(["A", "B", None])) for s_ in listed]
+        recs = []
+        for _ in range(6):
+            ln = rng.choice([ns, ns + 1, ns + 3, 2 * ns + 1, max(0, ns - 1), 0, ns + 40])
+            recs.append("".join(str(rng.choice([0, 1, 2, 3, 4])) for _ in range(ln)))
+        proj = None
+        if rng.random() < 0.4:
+            sizes = G.pop_sizes(smap)
+            proj = [rng.randint(1, 2 * z + 1) for z in sizes]
+        reqs.append({"op": "site_hist", "samples": samples, "map": E.map_json(smap), "project": proj, "records": recs, "fresh": False, "after_error": "continue"})
+    for kind in KINDS:
+        for q, r in zip(reqs, harness.run_all([dict(q) for q in reqs], kind=kind, _audit=False)):
+            S.count("ragged_record_requests")
+            if "panic" in r or r.get("died") or r.get("thread_panic"):
+                S.viol("C17:panic:library:ragged-records:%s" % panic_sig(str(r.get("panic") or r.get("thread_panic") or r.get("stderr", ""))),
+                       "[L site reader, %s harness, records of %r genotypes for %d samples] %s" % (kind, [len(x) for x in q["records"]], len(q["samples"]), str(r)[:300]),
+                       {"level": "L", "binary": kind, "request": q})
+            S.case(key=digest([q["records"], q["map"], kind, "ragged"]), nontrivial=True)
+
+
 def part_headers_non_ascii(S, p):
     """npy files (format version 3: UTF-8 header) whose header dict cannot be parsed but is valid UTF-8 - a structured dtype with non-ASCII
     field names, say - with a 2-, 3- or 4-byte character at EVERY byte offset from 20 to 230: an error message that quotes, shortens or
@@ -515,6 +544,7 @@ def shard(S, p):
     part_short(S, p)
     part_absurd(S, p)
     part_headers_non_ascii(S, p)
+    part_ragged_records(S, p)
     part_samples(S, p)
     part_hostile(S, p)
 
